@@ -81,11 +81,15 @@ func sizeSweep(c *ev.Ctx, prop string) {
 			}
 		}
 	}
-	names := make([]string, len(cases))
+	names := make([]interface{}, len(cases))
 	for i, sc := range cases {
-		names[i] = sc.name
+		if sz, custom := customSizes[sc.name]; custom {
+			names[i] = map[string]interface{}{"case": sc.name, "sizes_or_depths": sz, "variants": 2}
+		} else {
+			names[i] = map[string]interface{}{"case": sc.name, "sizes": "default", "positions": "first, second, middle, last but one, last"}
+		}
 	}
-	c.Set("size_sweep", map[string]interface{}{"sizes": sweepSizes, "positions": "first, second, middle, last but one, last", "cases": names, "evaluations": c.Evals() - n0})
+	c.Set("size_sweep", map[string]interface{}{"default_sizes": sweepSizes, "cases": names, "evaluations": c.Evals() - n0})
 }
 
 var sweepCases = map[string][]sweepCase{
